@@ -22,7 +22,7 @@ Qed.
 Ltac einv H :=
   unfold estep, owner_step, child_step, with_ls, with_eo, with_ec, with_mtx in H;
   repeat match type of H with
-         | context [match ?x with _ => _ end] => destruct x eqn:?; try discriminate
+         | context [match ?x with _ => _ end] => destruct x eqn:?; try discriminate; try congruence
          end;
   try (injection H as <-).
 
@@ -67,9 +67,9 @@ Definition E1 (e : elt) : Prop :=
   o_holds (eo e) && c_holds (ec e) = false /\ tidpub e = negb (c_unstarted (ec e)) /\
   o_init (eo e) = c_none (ec e).
 
-Lemma E1_step : forall es sh scr e lab e', E1 e -> estep es sh scr e lab = Some e' -> E1 e'.
+Lemma E1_step : forall es sh scr e lab e', tf_clears es = true -> E1 e -> estep es sh scr e lab = Some e' -> E1 e'.
 Proof.
-  intros es sh scr e lab e' (A1 & A2 & A3 & A4 & A5 & A6) H. unfold E1, mtx_free in *.
+  intros es sh scr e lab e' TC (A1 & A2 & A3 & A4 & A5 & A6) H. unfold E1, mtx_free in *.
   destruct lab; einv H; cbn [ls eo ec ptr got alive mtx signalled tidpub uaf_user uaf_dtor] in *;
     repeat match goal with H : eo e = _ |- _ => rewrite H in * end;
     repeat match goal with H : ec e = _ |- _ => rewrite H in * end;
@@ -79,9 +79,9 @@ Proof.
     try (destruct (eo e); cbn in *; try discriminate; repeat split; try congruence; fail).
 Qed.
 
-Lemma E1_reach : forall es sh scr cb uacts e, ereach es sh scr (einit cb uacts) e -> E1 e.
+Lemma E1_reach : forall es sh scr cb uacts e, tf_clears es = true -> ereach es sh scr (einit cb uacts) e -> E1 e.
 Proof.
-  intros es sh scr cb uacts e R. induction R as [|e lab e' R IH H].
+  intros es sh scr cb uacts e TC R. induction R as [|e lab e' R IH H].
   - cbn. repeat split.
   - eapply E1_step; eauto.
 Qed.
@@ -100,9 +100,10 @@ Definition E2 (es : eshape) (e : elt) : Prop :=
   (sl_while es = true -> eo e = OUnlock -> ptr e = true) /\
   (tf_notifies es = true -> eo e = OWait -> signalled e = false -> c_pre (ec e) = true \/ c_gone (ec e) = true).
 
-Lemma E2_step : forall es sh scr e lab e', E1 e -> J4 (ls e) -> E2 es e -> estep es sh scr e lab = Some e' -> E2 es e'.
+Lemma E2_step : forall es sh scr e lab e', tf_clears es = true ->
+  E1 e -> J4 (ls e) -> E2 es e -> estep es sh scr e lab = Some e' -> E2 es e'.
 Proof.
-  intros es sh scr e lab e' (A1 & A2 & A3 & A4 & A5 & A6) [_ J] (B1 & B2 & B3 & B4 & B5) H. unfold E2, mtx_free in *.
+  intros es sh scr e lab e' TC (A1 & A2 & A3 & A4 & A5 & A6) [_ J] (B1 & B2 & B3 & B4 & B5) H. unfold E2, mtx_free in *.
   destruct lab; einv H; cbn [ls eo ec ptr got alive mtx signalled tidpub uaf_user uaf_dtor] in *;
     repeat match goal with H : eo e = _ |- _ => rewrite H in * end;
     repeat match goal with H : ec e = _ |- _ => rewrite H in * end;
@@ -120,9 +121,9 @@ Proof.
   - apply J. reflexivity.
 Qed.
 
-Lemma E2_reach : forall es sh scr cb uacts e, ereach es sh scr (einit cb uacts) e -> E2 es e.
+Lemma E2_reach : forall es sh scr cb uacts e, tf_clears es = true -> ereach es sh scr (einit cb uacts) e -> E2 es e.
 Proof.
-  intros es sh scr cb uacts e R. induction R as [|e lab e' R IH H].
+  intros es sh scr cb uacts e TC R. induction R as [|e lab e' R IH H].
   - cbn. repeat split; intros; try discriminate; auto.
   - eapply E2_step; eauto; [eapply E1_reach; eauto|]. eapply J4_reach. eapply ereach_reach_t; eauto.
 Qed.
@@ -191,9 +192,9 @@ Proof.
     intros; try discriminate; eauto.
 Qed.
 
-Lemma E5_reach : forall es sh scr cb uacts e, ereach es sh scr (einit cb uacts) e -> E5 es e.
+Lemma E5_reach : forall es sh scr cb uacts e, tf_clears es = true -> ereach es sh scr (einit cb uacts) e -> E5 es e.
 Proof.
-  intros es sh scr cb uacts e R. induction R as [|e lab e' R IH H].
+  intros es sh scr cb uacts e TC R. induction R as [|e lab e' R IH H].
   - intros X; discriminate.
   - eapply E5_step; eauto. eapply E1_reach; eauto.
 Qed.
@@ -213,7 +214,7 @@ Proof.
 Qed.
 
 Theorem startloop_handshake : forall es sh scr cb uacts e,
-  ereach es sh scr (einit cb uacts) e -> sl_while es = true ->
+  ereach es sh scr (einit cb uacts) e -> tf_clears es = true -> sl_while es = true ->
   (* what startLoop() returns is not null, and when it is taken the loop exists *)
   (forall b, got e = Some b -> b = true) /\
   (eo e = OUnlock -> ptr e = true /\ alive e = true) /\
@@ -225,9 +226,9 @@ Theorem startloop_handshake : forall es sh scr cb uacts e,
   (tf_notifies es = true -> returned (log (sg (ls e))) = false -> o_startup (eo e) = true ->
    exists lab e', (lab = EO \/ lab = EC) /\ estep es sh scr e lab = Some e').
 Proof.
-  intros es sh scr cb uacts e R SW.
-  pose proof (E1_reach _ _ _ _ _ _ R) as (A1 & A2 & A3 & A4 & A5 & A6).
-  pose proof (E2_reach _ _ _ _ _ _ R) as (B1 & B2 & B3 & B4 & B5).
+  intros es sh scr cb uacts e R TC SW.
+  pose proof (E1_reach _ _ _ _ _ _ TC R) as (A1 & A2 & A3 & A4 & A5 & A6).
+  pose proof (E2_reach _ _ _ _ _ _ TC R) as (B1 & B2 & B3 & B4 & B5).
   assert (W : tf_notifies es = true -> returned (log (sg (ls e))) = false ->
               eo e = OWait -> signalled e = false -> c_pre (ec e) = true).
   { intros TN NR OW SG. destruct (B5 TN OW SG) as [X|X]; [exact X|].
@@ -268,15 +269,15 @@ Qed.
    inside it, some thread can step: the owner itself, or -- while it waits in join() -- the child,
    which is never stuck in a poll that only the time-out could end. *)
 Theorem dtor_terminates : forall es sh scr cb uacts e,
-  ereach es sh scr (einit cb uacts) e ->
+  ereach es sh scr (einit cb uacts) e -> tf_clears es = true ->
   resets_on_entry sh = false -> qwake_ok sh = true -> dtor_quits es = true ->
   (eo e = ODtor \/ eo e = OQuit -> exists e', estep es sh scr e EO = Some e') /\
   (eo e = OJoin -> ec e = CExited -> exists e', estep es sh scr e EO = Some e' /\ eo e' = ODone) /\
   (eo e = OJoin -> ec e <> CExited ->
    exists lab e', (lab = EC \/ lab = ECRead) /\ estep es sh scr e lab = Some e').
 Proof.
-  intros es sh scr cb uacts e R RE QW DQ.
-  pose proof (E1_reach _ _ _ _ _ _ R) as (A1 & A2 & A3 & A4 & A5 & A6).
+  intros es sh scr cb uacts e R TC RE QW DQ.
+  pose proof (E1_reach _ _ _ _ _ _ TC R) as (A1 & A2 & A3 & A4 & A5 & A6).
   pose proof (E3_reach _ _ _ _ _ _ R) as (c0 & c1 & F & K1 & K2 & K3 & K4).
   pose proof (ereach_reach_t _ _ _ _ _ _ R) as RT.
   split; [|split].
@@ -400,13 +401,13 @@ Definition E4 (e : elt) : Prop :=
   uaf_user e = false /\ (uaf_dtor e = true -> fcode_at (ls e) 1 = []).
 
 Lemma alive_while_unquit : forall es sh scr cb uacts e,
-  ereach es sh scr (einit cb uacts) e -> sl_while es = true ->
+  ereach es sh scr (einit cb uacts) e -> tf_clears es = true -> sl_while es = true ->
   o_returned (eo e) = true -> quit_called (log (sg (ls e))) = false -> alive e = true.
 Proof.
-  intros es sh scr cb uacts e R SW OR NQ.
-  pose proof (E1_reach _ _ _ _ _ _ R) as (A1 & A2 & A3 & A4 & A5 & A6).
-  pose proof (E2_reach _ _ _ _ _ _ R) as (B1 & B2 & B3 & B4 & B5).
-  pose proof (E5_reach _ _ _ _ _ _ R OR) as [b G].
+  intros es sh scr cb uacts e R TC SW OR NQ.
+  pose proof (E1_reach _ _ _ _ _ _ TC R) as (A1 & A2 & A3 & A4 & A5 & A6).
+  pose proof (E2_reach _ _ _ _ _ _ TC R) as (B1 & B2 & B3 & B4 & B5).
+  pose proof (E5_reach _ _ _ _ _ _ TC R OR) as [b G].
   pose proof (J1_reach _ _ _ _ _ _ (ereach_reach_t _ _ _ _ _ _ R)) as [_ JR].
   assert (b = true) by (destruct b; [reflexivity|exfalso; apply (B3 SW); exact G]). subst b.
   specialize (B2 G). rewrite A2.
@@ -417,15 +418,15 @@ Qed.
 
 Theorem uaf_only_in_quit_wakeup : forall es sh scr cb uacts e,
   (forall t, qfree_acts (scr t) = true) -> qfree_acts cb = true -> qfree_acts uacts = true ->
-  sl_while es = true ->
+  tf_clears es = true -> sl_while es = true ->
   ereach es sh scr (einit cb uacts) e -> E4 e.
 Proof.
-  intros es sh scr cb uacts e QS QC QU SW R. induction R as [|e lab e' R [U1 U2] H].
+  intros es sh scr cb uacts e QS QC QU TC SW R. induction R as [|e lab e' R [U1 U2] H].
   - split; [reflexivity|]. intros X; discriminate.
   - pose proof (E3_reach _ _ _ _ _ _ R) as (c0 & c1 & F & K1 & K2 & K3 & K4).
     pose proof (J5_reach _ _ _ _ _ QS QC QU (ereach_reach_t _ _ _ _ _ _ R)) as (_ & _ & d0 & d1 & F' & _ & Q5).
     rewrite F in F'. injection F' as <- <-.
-    pose proof (alive_while_unquit _ _ _ _ _ _ R SW) as AL.
+    pose proof (alive_while_unquit _ _ _ _ _ _ R TC SW) as AL.
     unfold E4, fcode_at in *. rewrite F in U2. cbn in U2.
     destruct lab; einv H; cbn [ls eo ec ptr got alive mtx signalled tidpub uaf_user uaf_dtor] in *;
       unfold fcode_at in *;
@@ -451,4 +452,44 @@ Proof.
         cbn. rewrite orb_false_r. intros X. specialize (U2 X). congruence.
       * (* the wake-up half *)
         injection C1 as -> ->. intros _. cbn in E. destruct (qwake sh false); injection E as <- <-; reflexivity.
+Qed.
+
+(* ---------------------------------------------------------------- loop_ is cleared when the thread function ends *)
+(* threadFunc clears loop_ under the mutex: a destructor that starts after the loop has been
+   destroyed (the loop was quit by somebody else and the thread function has returned) finds
+   loop_ == NULL and touches nothing *)
+Theorem dtor_skips_destroyed_loop : forall es sh scr cb uacts e,
+  ereach es sh scr (einit cb uacts) e -> tf_clears es = true -> sl_while es = true ->
+  eo e = ODtor -> alive e = false ->
+  ptr e = false /\ estep es sh scr e EO = Some (with_eo e ODone).
+Proof.
+  intros es sh scr cb uacts e R TC SW HO AL.
+  pose proof (E1_reach _ _ _ _ _ _ TC R) as (A1 & A2 & A3 & A4 & A5 & A6).
+  pose proof (E2_reach _ _ _ _ _ _ TC R) as (B1 & B2 & B3 & B4 & B5).
+  pose proof (E5_reach _ _ _ _ _ _ TC R) as G. unfold E5 in G. rewrite HO in G. destruct (G eq_refl) as [b Gb].
+  assert (b = true) by (destruct b; [reflexivity|exfalso; apply (B3 SW); exact Gb]). subst b.
+  specialize (B2 Gb).
+  assert (P : ptr e = false).
+  { rewrite A1. rewrite A2 in AL. destruct (ec e); try discriminate; reflexivity. }
+  split; [exact P|]. unfold estep, owner_step. rewrite HO, P. reflexivity.
+Qed.
+
+(* REFUTED for a threadFunc that does not clear loop_: the user quits the loop, the thread function
+   returns and the stack EventLoop is destroyed; only then the EventLoopThread is destroyed: the
+   destructor still sees loop_ != NULL and its quit() STORES into the destroyed loop *)
+Definition noclear_eshape : eshape := mkEShape true true true true false.
+Definition stale_labels : list elabel :=
+  [EO; EC; EO; EC; EC; EC; EC; EC; EO; EO; EO; EC; EC; EO; EO; EC; ECRead; EC; EC; EC; EC; EC; EC; EC; EO; EO; EO].
+
+Lemma stale_ptr_witness :
+  exists e0 e, ereach noclear_eshape fixed_shape no_scripts (einit [] [AQuit]) e0 /\
+    eo e0 = ODtor /\ ec e0 = CExited /\ alive e0 = false /\ ptr e0 = true /\
+    ereach noclear_eshape fixed_shape no_scripts (einit [] [AQuit]) e /\
+    uaf_dtor e = true /\ fcode_at (ls e) 1 = [MQuitWake].
+Proof.
+  eexists. eexists. split; [eapply erun_ereach with (labs := firstn 25 stale_labels); vm_compute; reflexivity|].
+  split; [vm_compute; reflexivity|]. split; [vm_compute; reflexivity|]. split; [vm_compute; reflexivity|].
+  split; [vm_compute; reflexivity|].
+  split; [eapply erun_ereach with (labs := stale_labels); vm_compute; reflexivity|].
+  split; vm_compute; reflexivity.
 Qed.
